@@ -403,8 +403,8 @@ func (e *exec) login(o Op) {
 	if rq.id == "" {
 		return
 	}
-	if e.st.Login(rq.id, vkit.UserIDs[o.User%len(vkit.UserIDs)]) {
-		rq.user = vkit.UserIDs[o.User%len(vkit.UserIDs)]
+	if e.st.Login(rq.id, vkit.AllUserIDs[o.User%len(vkit.AllUserIDs)]) {
+		rq.user = vkit.AllUserIDs[o.User%len(vkit.AllUserIDs)]
 		e.res.Label("login")
 	} else {
 		e.res.Label("login:request-gone")
